@@ -111,11 +111,17 @@ def request(quantity):
         return None
 
 
-def request_quantum(base, n_subs=1):
-    """Quantum with which a request in `base` is honoured (DESIGN.md section 4), in base units."""
+def request_quantum(base, contents=None):
+    """Quantum with which a request in `base` is honoured (DESIGN.md section 4), in base units.
+    Volume requests are taken as a fraction of the *stored* volume, which may differ from the sum of the
+    contents' volumes by the bookkeeping quanta (one storage quantum of an enzyme can be 1e-7 uL)."""
     cf = R.cfg()
+    if isinstance(contents, int):
+        contents = None
     if base == 'L':
-        return cf.q * cf.vol_prefix * (n_subs + 3)
+        n = len(contents) if contents else 1
+        drift = 1 + (sum(abs(vol_per_stored(s)) for s in contents) if contents else 0.0)
+        return cf.q * cf.vol_prefix * (n + 3) * drift
     if base == 'g':
         return cf.q
     if base == 'mol':
@@ -133,7 +139,7 @@ def classify_transfer(src_contents, dst_contents, dst_cap, value, base):
     -> ('feasible'|'infeasible'|'boundary', reason, f, margins)"""
     cf = R.cfg()
     m = R.measure(src_contents, base)
-    rq = request_quantum(base, len(src_contents)) + storage_noise_in(src_contents, base) * K
+    rq = request_quantum(base, src_contents) + storage_noise_in(src_contents, base) * K
     if math.isnan(value):
         return 'infeasible', 'nan', 0.0, {}
     if value < -rq:
@@ -257,7 +263,7 @@ def check_container_transfer(src, dst, quantity, result, exc, nested):
         m = R.measure(sc, base)
     if m <= 0:
         return
-    rq = request_quantum(base, len(sc))
+    rq = request_quantum(base, sc)
     rq_rel = rq / m
     ok = True
     for s, a in sc.items():
@@ -768,7 +774,7 @@ def check_plate_transfer(src, dst, quantity, result, exc, op):
         exp = -n * value if sk == 'C' else n * value
         wells_c = swells if sk == 'S' else []
         tol = n * K * (storage_noise_in(subs_of(cont_before.contents, cont_after.contents), base) +
-                       request_quantum(base, 4)) + 1e-9 * abs(exp) + R.noise(R.measure(cont_before.contents, base)) * n
+                       request_quantum(base, cont_before.contents)) + 1e-9 * abs(exp) + R.noise(R.measure(cont_before.contents, base)) * n
         if not M.ratio('ALIQ.broadcast', delta, exp, tol):
             M.violate(['C02'], 'ALIQ', f'C02:broadcast_container_side_ne_n_times_q:{form}:{base}',
                       {'n': n, 'requested_each': value, 'unit': base, 'container_delta': delta,
